@@ -1,7 +1,7 @@
 CONSTANTS
   Variant = "unescaped_desc"
   Family = "render"
-  Size = "q"
+  Size = "m"
 INIT Init
 NEXT Next
 CHECK_DEADLOCK FALSE
